@@ -10,6 +10,7 @@ model (the list of frames + the documented handler contract) run in lockstep wit
 from __future__ import annotations
 
 import errno
+import gc
 import itertools
 from typing import Any
 
@@ -134,9 +135,15 @@ class Body:
                     resp = "ok:" + str(req)
                 for _ in range(shape.work):
                     await asyncio.sleep(0)
-                await client.send_packet(resp)
+                try:
+                    await client.send_packet(resp)
+                except ConnectionError:
+                    rec.send_failed = getattr(rec, "send_failed", 0) + 1  # only after the peer reset the connection
                 if shape.aclose_at == rec.items:
-                    await client.aclose()
+                    try:
+                        await client.aclose()
+                    except ConnectionError:
+                        pass
                     rec.add("aclose")
         finally:
             rec.gen_final(g)
@@ -273,6 +280,7 @@ def run_one(ctx: Ctx, cfg: dict) -> dict:
     out["applied"] = list(script.applied)
     out["placed_busy"] = script.placed_busy
     out["disc_closing"] = getattr(rec, "disc_closing", None)
+    out["send_failed"] = getattr(rec, "send_failed", 0)
     out["unhandled"] = [u.get("exception") or u.get("message") for u in vloop.collect_unhandled(loop)]
     # availability of each complete frame: logical clock (number of events applied before it became complete) and time
     avail = []
@@ -369,6 +377,14 @@ def reference(cfg: dict, obs: dict) -> tuple[list[tuple], bytes, dict]:
             y = yields[st["yi"]]
             st["yi"] += 1
             o = outcome(y)
+            if y["outcome"] != o:
+                sym = {("item", "timeout"): "spurious-timeout", ("timeout", "item"): "missing-timeout", ("item", "exit"): "request-lost",
+                       ("exit", "item"): "request-delivered-after-close" if st["closing"] else "phantom-request",
+                       ("timeout", "exit"): "generator-closed-instead-of-timeout", ("exit", "timeout"): "timeout-instead-of-generator-close",
+                       }.get((o, y["outcome"]), f"yield-resumed-with-{y['outcome']}-instead-of-{o}")
+                raise Mismatch(sym, f"yield #{st['yi']} (generator {kind!r}, timeout={y['tau']}, at t={y['t']:.4f}) resumed with {y['outcome']!r} at "
+                                    f"t={(y['t_resume'] or 0):.4f}; the reference model says {o!r}"
+                                    + (f" (next request {avail[st['n']][0]!r} complete at t={avail[st['n']][2]:.4f})" if st["n"] < len(avail) else f" (no request left; disconnect at t={end_t:.4f})"))
             if o == "timeout":
                 exp.append(("timeout",))
                 if y["outcome"] == "timeout" and y["tau"] and abs(y["t_resume"] - (y["t"] + y["tau"])) > 0.002:
@@ -448,7 +464,9 @@ def oracle(cfg: dict, obs: dict) -> tuple[str | None, str, dict]:
         return "generator-closed-twice", f"finals={obs['finals']} exits={obs['exits']}", notes
     if not obs["closed"]:
         return "connection-not-closed", "the client socket is still open at quiescence", notes
-    if obs["tx"] != tx:
+    if obs["send_failed"] and cfg.get("end", "eof") != "reset":
+        return "send-failed-without-reset", f"send_packet raised ConnectionError {obs['send_failed']} time(s) although the peer never reset the connection", notes
+    if obs["tx"] != tx and not (obs["send_failed"] and tx.startswith(obs["tx"])):
         return "responses-differ", f"client received {obs['tx']!r}, reference {tx!r}", notes
     if not obs["serving"]:
         return "server-stopped", "the server is not serving any more after the connection ended", notes
@@ -555,7 +573,7 @@ PLAN: dict[str, dict[str, dict]] = {
     },
     # timed arrivals x per-yield timeouts
     "time": {
-        "quick": dict(maxn=2, extra=False, max_chunks=2, midcuts=False,
+        "quick": dict(maxn=2, extra=False, max_chunks=2, midcuts=True,
                       shapes=mk_shapes((1, 0), ((TAU,), (None, TAU), (0, TAU)), ("coro", "gen"), (True,), (0,), (0,))
                       + mk_shapes((2,), ((TAU,),), ("coro",), (True,), (0, 2), (0,))),
         "thorough": dict(maxn=3, extra=False, max_chunks=3, midcuts=True,
@@ -660,6 +678,8 @@ def run_job(job: dict) -> JobResult:
 
         def check(ctx: Ctx, obs: dict, cfg: dict = cfg) -> None:
             res.evaluations += 1
+            if res.evaluations % 1000 == 0:
+                gc.collect()  # abandoned loops/tasks are cyclic garbage: keep the workers' memory flat
             sym, msg, notes = oracle(cfg, obs)
             if sym is None:
                 res.outcome(f"{fam}:ended-" + notes.get("ended", "?"))
